@@ -151,6 +151,9 @@ def scanBody (s : State) (th : Nat) : State :=
 
 def wakeAll (l : List Pc) : List Pc := l.map (fun p => if p = .sleeping then .woken else p)
 
+/-- a parallel barrier hands the effects of every finished task to the waiter -/
+def syncedAfter (s : State) (q : Nat) : List Nat := if q = 0 then s.done else s.synced
+
 def allExited (s : State) : Bool := (s.pcs.drop 1).all (· = .exited)
 
 def step (s : State) : Action → Option State
@@ -197,7 +200,7 @@ def step (s : State) : Action → Option State
     match s.mode with
     | .spin q =>
       if (q = 0 → s.tw = s.n) ∧ (q ≠ 0 → s.locked q = false) then
-        some { s with mode := .api, synced := if q = 0 then s.done else s.synced }
+        some { s with mode := .api, synced := syncedAfter s q }
       else none
     | _ => none
   | .sdFlag =>
